@@ -6,12 +6,12 @@ V = os.path.dirname(os.path.dirname(os.path.abspath(__file__)))
 CLAIMS = {
  "C07": dict(
   technique="SSA path analysis of depacketizer state (must-pass-through reset / continuity edge), bool-flag invariant proof",
-  text="Decides structural necessary conditions on every CFG path of every stateful depacketizer: each append to a fragment-chain field is reached only after a reset in the same call or through the passing edge of a continuity check; reset helpers keep the size accumulator in sync with the chain; every persistent slice field has a reviewed role. Does not decide the behavioural statement over fault sequences.",
+  text="Decides structural necessary conditions on every CFG path of every stateful depacketizer: each append to a fragment-chain field is reached only after a reset in the same call or through the passing edge of a continuity check; reset helpers keep the size accumulator in sync with the chain; every persistent slice field has a reviewed role. Does not decide the behavioural statement over fault sequences. Round 4 addition: wherever a buffer is emptied outside its reset helper, the accumulators the helper zeroes are zeroed or set afresh before the return.",
   note="Trusts: go/ssa lowering (x/tools v0.50.0), the reviewed chain/list role table, A1-A3 of DESIGN.md section 2. Continuity of unit-list fields is out of scope.",
   ref="3 C07"),
  "C08": dict(
   technique="SSA dataflow: guarded-append (cap / offset-equality / budget) analysis, returned-slice reuse analysis",
-  text="Decides on every path that each growth of a persistent decoder slice is bounded by a recognised guard whose accumulator follows the appended length, and that a slice handed to the caller is dropped and its backing array never reused. Does not measure heap or prove termination; bounds-check freedom is covered by the NO-PANIC rule where armed.",
+  text="Decides on every path that each growth of a persistent decoder slice is bounded by a recognised guard whose accumulator follows the appended length, and that a slice handed to the caller is dropped and its backing array never reused. Does not measure heap or prove termination; bounds-check freedom is covered by the NO-PANIC rule where armed. Round 4 additions: a persistent field never adopts a slice built elsewhere (it would bypass cap and accumulator); the reviewed bounds row of readAUHeaders re-checks its own argument (counting and consuming loops use the same field widths).",
   note="Trusts: constants compared against are the documented maxima; pion/mediacommon payload parsers; zero-length fragments are not bounded by the byte cap (stated).",
   ref="3 C08"),
  "C02": dict(
@@ -46,7 +46,7 @@ CLAIMS = {
   ref="3 C01"),
  "C11": dict(
   technique="VTA call-graph reachability of panic sites (iterated refinement), lockset on cross-session accesses, finite-domain method tracking for handler assertions, correlated nil-guard path queries",
-  text="Decides that no unimplemented-stub panic is reachable from server goroutines or API entry points and every other explicit panic is classified; that code walking a stream's sessions reads their mutable state under their lock; that unchecked handler assertions are covered by checked ones for the same method; that optional header fields are dereferenced only on non-nil paths; plus the response / close / deadline / goroutine-lifecycle rules shared with C02 and C13. Does not decide timing or observe released resources.",
+  text="Decides that no unimplemented-stub panic is reachable from server goroutines or API entry points and every other explicit panic is classified; that code walking a stream's sessions reads their mutable state under their lock; that unchecked handler assertions are covered by checked ones for the same method; that optional header fields are dereferenced only on non-nil paths; plus the response / close / deadline / goroutine-lifecycle rules shared with C02 and C13. Does not decide timing or observe released resources. Round 4 additions: a connection deleted from Server.conns is deleted from every other connection-keyed registry; components whose initialisation can fail are published only on the success edge in code reachable from the goroutines; every accepting path of isTransportSupported pins the UDP delivery kind to the listener / multicast range it needs.",
   note="Trusts: VTA soundness for the program (no unsafe/reflection calls); the reviewed panic classification table; handlers honour their documented contracts.",
   ref="3 C11"),
  "C17": dict(
@@ -81,17 +81,17 @@ CLAIMS = {
   ref="3 C10"),
  "C12": dict(
   technique="VTA call-graph reachability of panic sites from client goroutines and API, correlated nil-guard path queries, discarded-error analysis, reply pairing, timer placement, zone-domain bounds analysis of all response / SDP / header parsers",
-  text="Decides that no stub panic is reachable from client goroutines or API entry points, that every dereference of an optional response field (Transport ports, SSRC, Content-Base, session header) is guarded on every path, that no (value, error) result is used with its error dropped, that every API request receives exactly one reply, that the response deadline is armed once outside the read loop, that writer state is only switched from the run loop, and that no index or slice expression in the parsers a server's bytes reach can go out of bounds.",
+  text="Decides that no stub panic is reachable from client goroutines or API entry points, that every dereference of an optional response field (Transport ports, SSRC, Content-Base, session header) is guarded on every path, that no (value, error) result is used with its error dropped, that every API request receives exactly one reply, that the response deadline is armed once outside the read loop, that writer state is only switched from the run loop, and that no index or slice expression in the parsers a server's bytes reach can go out of bounds. Round 4 addition: in code reachable from the client's goroutines an object whose Initialize can fail is stored into a longer-lived field only on the success edge (or the failing edge panics / overwrites the field).",
   note="Trusts: VTA soundness (no unsafe / reflection); the reviewed panic table, bounds table and discarded-error table; pion/rtp, pion/rtcp parsers.",
   ref="3 C12"),
  "C14": dict(
   technique="lockset analysis, masked-index provenance on the reorder ring, operand-type rule for sequence arithmetic, consecutive-counter reset path queries",
-  text="Decides that every mutable field of the RTP receiver is touched only under its mutex (lock-held helpers called only with it held), that every index into the reorder ring is masked with len(buffer)-1 at the point of use or is the position field that only ever holds a masked value, that differences of sequence numbers are computed in uint16 before being reinterpreted (never on widened copies), and that a counter of consecutive late packets is zeroed on every path that does not increment it. Does not decide the numerical content of receiver reports or the NTP mapping.",
+  text="Decides that every mutable field of the RTP receiver is touched only under its mutex (lock-held helpers called only with it held), that every index into the reorder ring is masked with len(buffer)-1 at the point of use or is the position field that only ever holds a masked value, that differences of sequence numbers are computed in uint16 before being reinterpreted (never on widened copies), and that a counter of consecutive late packets is zeroed on every path that does not increment it. Does not decide the numerical content of receiver reports or the NTP mapping. Round 4 additions: the code handling a recognised sender restart empties the reorder ring; the packet compared in the sequence-cycle test is the packet recorded as the last one.",
   note="Trusts: the ring length is a power of two (constructor argument); NTP / RTP clock arithmetic is not examined.",
   ref="3 C14"),
  "C15": dict(
   technique="operand-type rule for timestamp deltas (wrap-safe 32-bit subtraction before widening), lockset analysis of sender / time-decoder state",
-  text="Decides that RTP timestamp differences in the global decoders and the sender are formed in 32-bit modular arithmetic and sign-extended before they are scaled, and that the shared decoder / sender state is touched under its mutex. Does not decide the numerical NTP mapping.",
+  text="Decides that RTP timestamp differences in the global decoders and the sender are formed in 32-bit modular arithmetic and sign-extended before they are scaled, and that the shared decoder / sender state is touched under its mutex. Does not decide the numerical NTP mapping. Round 4 addition: GlobalDecoder.startPTS is stored only where the track is known to be the leading one (or leader, rate and anchor are rewritten together).",
   note="Trusts: int32 conversion of a uint32 difference yields the shortest signed distance.",
   ref="3 C15"),
  "C20": dict(
